@@ -141,6 +141,36 @@ char *bzk_gen(const uint8_t *tape, size_t n, int max_block, int allow_big, int d
   *plen = R.plain.size();
   return r;
 }
+// same, with symbol-level blocks: sym_blocks = k > 0 -> about one block in k; plant as in GenOptions
+char *bzk_gen2(const uint8_t *tape, size_t n, int max_block, int allow_big, int defect, int sym_blocks, int plant,
+               uint8_t **bytes, size_t *blen, uint8_t **plain, size_t *plen) {
+  gen::GenOptions o;
+  o.max_block = max_block;
+  o.allow_big = allow_big != 0;
+  o.defect = defect;
+  o.sym_blocks = sym_blocks;
+  o.plant = plant;
+  gen::GenResult R = gen::generate(tape, n, o);
+  std::ostringstream js;
+  js << "{\"defect\":" << jstr(gen::defect_name(R.defect)) << ",\"note\":" << jstr(R.note)
+     << ",\"sym_used\":" << (R.sym_used ? "true" : "false") << ",\"labels\":{";
+  bool first = true;
+  for (auto &kv : R.labels) {
+    js << (first ? "" : ",") << jstr(kv.first) << ":" << kv.second;
+    first = false;
+  }
+  js << "}}";
+  std::string s = js.str();
+  char *r = (char *)malloc(s.size() + 1);
+  memcpy(r, s.c_str(), s.size() + 1);
+  *bytes = (uint8_t *)malloc(R.bytes.size() + 1);
+  memcpy(*bytes, R.bytes.data(), R.bytes.size());
+  *blen = R.bytes.size();
+  *plain = (uint8_t *)malloc(R.plain.size() + 1);
+  memcpy(*plain, R.plain.data(), R.plain.size());
+  *plen = R.plain.size();
+  return r;
+}
 int bzk_gen_ndefects(void) { return gen::D_COUNT; }
 const char *bzk_gen_defect_name(int d) { return gen::defect_name(d); }
 }
